@@ -755,6 +755,7 @@ func DelClient(c Client) {
 	g.timestamp = time.Now()
 	clients := g.getClientsUnlocked(nil)
 	verifhook.At("group.DelClient.locked", g, c, len(g.clients))
+	autoLockKick(g)
 	g.mu.Unlock()
 	verifhook.At("group.DelClient.unlocked", g, c)
 
@@ -764,7 +765,6 @@ func DelClient(c Client) {
 			g.Name(), "delete", c.Id(), c.Username(), nil, nil,
 		)
 	}
-	autoLockKick(g)
 }
 
 func (g *Group) GetClients(except Client) []Client {
